@@ -22,9 +22,7 @@ import (
 func (s *Sim) sigOpCostModel(t *MTx, segwit bool) int64 {
 	var legacy, wit int64
 	for _, o := range t.Msg.TxOut {
-		if k, _ := s.w.classify(o.PkScript); k == KP2PKH {
-			legacy++
-		}
+		legacy += s.legacySigOps(o.PkScript)
 	}
 	for _, r := range t.InRecs {
 		if r != nil && r.Kind == KP2WPKH && segwit {
@@ -32,6 +30,31 @@ func (s *Sim) sigOpCostModel(t *MTx, segwit bool) int64 {
 		}
 	}
 	return legacy*4 + wit
+}
+
+// legacySigOps counts signature operations of an output script by the legacy
+// rule for the shapes the harness generates: pay-to-pubkey-hash has one
+// OP_CHECKSIG; a bare script made only of OP_CHECKSIG / OP_CHECKMULTISIG
+// opcodes counts 1 / 20 each; everything else the harness builds has none.
+func (s *Sim) legacySigOps(pk []byte) int64 {
+	if k, _ := s.w.classify(pk); k == KP2PKH {
+		return 1
+	}
+	if len(pk) == 0 {
+		return 0
+	}
+	var n int64
+	for _, b := range pk {
+		switch b {
+		case txscript.OP_CHECKSIG:
+			n++
+		case txscript.OP_CHECKMULTISIG:
+			n += 20
+		default:
+			return 0
+		}
+	}
+	return n
 }
 
 // CheckTemplate generates a block template on the real node and checks every
@@ -138,9 +161,7 @@ func (s *Sim) CheckTemplate() {
 	}
 	var cbSig int64
 	for _, o := range cb.TxOut {
-		if k, _ := w.classify(o.PkScript); k == KP2PKH {
-			cbSig += 4
-		}
+		cbSig += 4 * s.legacySigOps(o.PkScript)
 	}
 	if tmpl.SigOpCosts[0] != cbSig {
 		r.Violate("C12", "template-sigops", "", "coinbase sigop cost %d, definition gives %d", tmpl.SigOpCosts[0], cbSig)
@@ -155,7 +176,8 @@ func (s *Sim) CheckTemplate() {
 	msg.SerializeNoWitness(&sbuf)
 	weight := 3*sbuf.Len() + buf.Len()
 	if weight > 4000000 || uint32(weight) > s.n.cfg.Mining.BlockMaxWeight {
-		r.Violate("C12", "template-limits", "", "template weight %d exceeds the consensus (4000000) or configured (%d) maximum", weight, s.n.cfg.Mining.BlockMaxWeight)
+		cbw := 3*cb.SerializeSizeStripped() + cb.SerializeSize()
+		r.Violate("C12", "template-limits", "", "template weight %d exceeds the consensus (4000000) or configured (%d) maximum (%d transactions, coinbase weight %d, witness txs %v, coinbase outputs %d)", weight, s.n.cfg.Mining.BlockMaxWeight, len(msg.Transactions), cbw, hasWit, len(cb.TxOut))
 	}
 	if h.MerkleRoot != chainhash.Hash(merkleRoot(leaves)) {
 		r.Violate("C12", "template-merkle-root", "", "template merkle root does not match its transactions")
